@@ -3,7 +3,16 @@ one property; untagged clauses - invariants, safety - count for every property o
 
 E = 'pexpect.expect.Expecter.'
 
+SS = 'pexpect.expect.searcher_string.'
+SR = 'pexpect.expect.searcher_re.'
+
 PROPS = {
+    'C02': {
+        'contracts': [SS + 'search', E + 'do_search'],
+        'assumptions': [
+            'str.find / bytes.find(sub, start) returns -1 or the least position >= the clamped start at which sub occurs (assumed contract, cross-checked against CPython)',
+        ],
+    },
     'C01': {
         'contracts': [E + 'do_search', E + 'existing_data', E + 'new_data', E + 'eof', E + 'timeout', E + 'errored', E + 'expect_loop'],
         'assumptions': [
